@@ -534,7 +534,7 @@ def _parse_current_version_default_pattern(raw_cfg: RawConfig, raw_cfg_text: str
             return line[:version_idx] + version_pattern + closing_quote
 
         # NOTE: a section header may be followed by a comment
-        section_match = SECTION_HEADER_RE.match(line)
+        section_match = SECTION_HEADER_RE.match(line.strip())
         if section_match:
             section_name      = section_match.group(1).strip()
             is_config_section = section_name in ("pycalver", "bumpver", "tool.bumpver")
